@@ -201,6 +201,39 @@ def main():
     except ExtractError as ex:
         print("EXTRACTION FAILED:", ex, file=sys.stderr)
         sys.exit(2)
+    # source terms: `rhs_f` of every class whose body is inside the grammar (all Circular-geometry classes; the Shafranov /
+    # Czarny ones use pow(x, 3.0 / 2.0) and are compared pointwise only).  The list of translated classes is pinned.
+    src_defs, src_table, src_skipped = [], [], []
+    sd = os.path.join(REPO, "src/InputFunctions/SourceTerms")
+    for f in sorted(os.listdir(sd)):
+        if not f.endswith(".cpp") or "Culham" in f:
+            continue
+        for (cls, fn), body in functions_in(os.path.join(sd, f)).items():
+            if fn != "rhs_f":
+                continue
+            try:
+                e = parse_body(body)
+            except ExtractError as ex:
+                src_skipped.append(cls)
+                continue
+            src_defs.append(f"def {cls}_rhs_f : Expr := {e}")
+            src_table.append(cls)
+    src_path = os.path.join(os.path.dirname(out_path), "SourceTerms.lean")
+    src_lines = ["import GMGModel.Sym", "/-! GENERATED by tools/cxx_expr.py from src/InputFunctions/SourceTerms/*.cpp of /repo's working tree on every check — do not edit.",
+                 "   Not translated (outside the expression grammar, pointwise tie only): " + ", ".join(src_skipped) + " -/",
+                 "set_option maxRecDepth 100000", "namespace SourceTerms.Gen", "open Sym Sym.Expr", ""] + src_defs + ["",
+                 "def table : List (String × Expr) := [" + ", ".join(f'("{c}", {c}_rhs_f)' for c in src_table) + "]", "end SourceTerms.Gen", ""]
+    src_new = "\n".join(src_lines)
+    src_old = open(src_path).read() if os.path.exists(src_path) else None
+    if src_new != src_old:
+        open(src_path, "w").write(src_new)
+    expected = os.path.join(root, "tools", "source_terms_expected.json")
+    if os.path.exists(expected):
+        want = json.load(open(expected))
+        missing = sorted(set(want) - set(src_table))
+        if missing:
+            print("EXTRACTION FAILED: source terms that used to be translatable no longer are:", missing, file=sys.stderr)
+            sys.exit(2)
     lines = ["import GMGModel.Sym", "/-! GENERATED by tools/cxx_expr.py from /repo's working tree on every check — do not edit. -/",
              "set_option maxRecDepth 100000", "namespace InputFns.Gen", "open Sym Sym.Expr", ""] + defs + ["",
              "def table : List (String × String × Expr) := [" + ", ".join(f'("{c}", "{fn}", {n})' for c, fn, n in table) + "]",
@@ -209,7 +242,8 @@ def main():
     old = open(out_path).read() if os.path.exists(out_path) else None
     if new != old:
         open(out_path, "w").write(new)
-    print(json.dumps(dict(functions=len(defs), classes=len({c for c, _, _ in table}), changed=new != old)))
+    print(json.dumps(dict(functions=len(defs), classes=len({c for c, _, _ in table}), changed=new != old, source_terms_translated=len(src_table),
+                          source_terms_pointwise_only=len(src_skipped))))
 
 
 if __name__ == "__main__":
